@@ -17,14 +17,57 @@ def build(cb):
     return cb.compile("drv_dec", [os.path.join(common.CDIR, "drv_dec.c")] + cb.lib_sources())
 
 
+def small_temp_cases(rnd, v):
+    """Directed family (audit round): temp tables with 2..5 entries, every value of the 2-bit skip field after the third
+    entry -- also when the skipped entries reach past the count field (n = 3 with skip 1..3, n = 4 with skip 2..3,
+    n = 5 with skip 3: only the zero-run symbols 0..2 can then have a length, so the code table is in its single-symbol
+    form and the temp table is sent but not used) -- followed by a second, ordinary block, so that a decoder that
+    mis-sizes or rejects such a temp table either loses its place in the bit stream or stops.  All descriptions satisfy
+    wf_temp of S_LhNew.v (complete code over the sent lengths, skip <= 3, skip = 0 when n < 3)."""
+    res = []
+    first3 = [(1, 1, 0), (1, 0, 1), (0, 1, 1), (1, 2, 2), (2, 1, 2), (2, 2, 1)]
+    cp = gen.len_sym(v, v.lmin)
+    forms = [(2, 0, None)]
+    for n in (3, 4, 5):
+        for skip in (0, 1, 2, 3):
+            forms.append((n, skip, None))
+    for (n, skip, _) in forms:
+        for lens in ([(1, 1)] if n == 2 else rnd.sample(first3, 2)):
+            expl = list(lens)
+            if n >= 3:
+                expl += [0] * max(0, n - 3 - skip)          # entries after the skipped ones: unused
+            temp = "T%d:%d:%s" % (n, skip, ",".join(map(str, expl)))
+            if rnd.random() < 0.5:
+                b = rnd.randrange(256)
+                code, cmds = "S%d" % b, [('L', b)] * rnd.choice([1, 3, 9])
+                off = "S%d" % rnd.randrange(1 << v.ob)
+            else:
+                d = rnd.choice([0, 1, 2, 3])
+                code, cmds = "S%d" % cp, [('C', d, v.lmin, False)] * rnd.choice([1, 2, 5])
+                off = "S%d" % gen.dist_sym(v, d)
+            blk1 = "%s;%s;%s;%s" % (temp, code, off, gen.cmds_str(cmds))
+            tail = gen.rand_cmds(rnd, v, rnd.choice([1, 4, 12]), max_out=2000, short=True)
+            res.append(("tempsmall-n%d-skip%d" % (n, skip), "lhnewx %s %s/%s" % (v.name, blk1, gen.rand_block(rnd, v, tail))))
+    # small temp tables that ARE used: code lengths 1 (temp symbol 3, n = 4) and 2 (temp symbol 4, n = 5, skip 0 and 1)
+    lit = lambda b: ('L', b)
+    res.append(("tempsmall-used-n4", "lhnewx %s T4:0:1,0,0,1;K4:l1,z,z,l1;S0;%s" % (v.name, gen.cmds_str([lit(0), lit(3), lit(3), lit(0)]))))
+    res.append(("tempsmall-used-n5-skip1", "lhnewx %s T5:1:1,0,0,1;K6:l2,l2,z,l2,z,l2;S0;%s"
+                % (v.name, gen.cmds_str([lit(5), lit(0), lit(1), lit(3), lit(5)]))))
+    res.append(("tempsmall-used-n5-skip0", "lhnewx %s T5:0:0,1,0,0,1;K22:l2,l2,s18,l2,l2;S0;%s"
+                % (v.name, gen.cmds_str([lit(21), lit(0), lit(1), lit(20)]))))
+    return res
+
+
 def run(ctx):
     rnd = random.Random(ctx.seed * 49979687 + 1)
+    rnd_dir = random.Random(ctx.seed * 7919 + 101)      # for the directed families: leaves the other cases as they were
     cb = CBuild(PID)
     viol, mism = [], []
     dist = collections.Counter()
     try:
         cexe = build(cb)
         enc_lines, meta = [], []
+        dropped_shapes = {}
         for v in [gen.V(t) for t in gen.VARIANTS]:
             cases = gen.gen_cases(rnd, v, ctx.quick)
             if ctx.quick:
@@ -32,8 +75,20 @@ def run(ctx):
                 heavy = [c for c in cases if c[0].startswith("auto-")]
                 light = [c for c in cases if not c[0].startswith("auto-")]
                 rnd.shuffle(light)
-                cases = light[:55] + (heavy if (ctx.seed + hash(v.name)) % 6 == 0 else heavy[:0])
+                dropped_shapes[v.name] = [c for c in light[55:] if not c[0].startswith(("auto", "explicit")) and len(c[1]) < 20000]
+                cases = light[:55] + (heavy if (ctx.seed + [t[0] for t in gen.VARIANTS].index(v.name)) % 6 == 0 else heavy[:0])   # (was hash(v.name): salted per process, so a run could not be repeated)
             for tag, line in cases:
+                enc_lines.append(line)
+                meta.append((v, tag))
+        for v in [gen.V(t) for t in gen.VARIANTS]:
+            # directed families of the audit round: always run, both tiers, after the other cases (so that those are
+            # generated exactly as before)
+            for tag, line in small_temp_cases(rnd_dir, v):
+                enc_lines.append(line)
+                meta.append((v, tag))
+            # quick tier: the hand-picked table shapes that the random prefix of 55 left out (they are small; about two
+            # thirds of them were dropped per method and seed)
+            for tag, line in dropped_shapes.get(v.name, []):
                 enc_lines.append(line)
                 meta.append((v, tag))
         eo = common.run_lines_parallel([ctx.model], enc_lines, timeout=1800)
